@@ -11,6 +11,7 @@ import (
 	"verifharness/core"
 	"verifharness/dump"
 	"verifharness/kmodel"
+	"verifharness/probes"
 	"verifharness/respc"
 	"verifharness/srv"
 )
@@ -211,6 +212,7 @@ func Run(ctx *core.Ctx) {
 	// ---- workload A: state graph sweep
 	sweep(ctx, newSess)
 	supersededDeadlines(ctx, newSess)
+	probes.RefusedChangesNothing(ctx, bin, "c01")
 
 	// ---- workload B: random programs
 	nprog := ctx.Pick(120, 3000)
